@@ -387,6 +387,14 @@ def check(inp):
         if q != p.Variable(n):
             return [_viol("backtick", "`%s` parses as %r" % (n, q))]
         return []
+    if inp.get("before"):
+        # a history: other texts are parsed first (their outcome does not matter), then the round trip is checked
+        for s0 in inp["before"]:
+            try:
+                parse(s0)
+            except Exception:
+                pass
+        return _check_tree(inp["expr"])
     return check_tree(inp["expr"])
 
 
@@ -847,6 +855,32 @@ def bounded(payload):
         run(t)
     parts["random_expressions"] = n_random
 
+    # ---- histories: look-alike texts (the same characters but for blanks; blanks doubled; another case) are parsed first.
+    #      Whitespace separates the word operators (not / and / or / if / else) from names, so `not ready` and `notready`
+    #      are different expressions, and what one call returned must not colour the next ----
+    n_h = 0
+    rdy, flg = ["var", "ready"], ["var", "flag"]
+    hist = [["not", rdy], ["or", ["not", rdy], ["cmp", ">=", ["var", "<state>y"], ["int", 0]]], ["and", rdy, flg], ["or", rdy, flg],
+            ["if", rdy, ["var", "a"], ["var", "b"]], ["and", ["not", rdy], ["not", flg]],
+            ["if", ["not", rdy], ["var", "<state>y"], ["var", "tol"]], ["sum", ["var", "a"], ["var", "b"]],
+            ["call", ["var", "<func>f"], [["var", "a"]], {"t": ["not", rdy]}], ["cmp", "<", ["var", "a"], ["var", "b"]]]
+    for t in hist:
+        s0 = str(build(t))
+        befores = [[s0.replace(" ", "")], [s0.replace(" ", "  ")], [s0.upper()], [s0.replace(" ", ""), s0.replace(" ", "  ")]]
+        for before in befores:
+            if before == [s0]:
+                continue
+            inp = {"expr": t, "before": before}
+            vs = check(inp)
+            if vs is None:
+                continue
+            evals += 1
+            n_h += 1
+            for clause in sorted(set(v["clause"] for v in vs)):
+                classes[clause] = classes.get(clause, 0) + 1
+                record(dict(inp, clause=clause), clause)
+    parts["histories_with_look_alike_texts"] = n_h
+
     known_hits = []
     for e in payload.get("known", []):
         if e.get("native") is None:
@@ -864,7 +898,8 @@ def bounded(payload):
                     "product, quotient, floor-div, remainder, power, 6 comparisons, and/or/not, call with positional "
                     "and keyword arguments, subscript, conditional) with 6 numeric and 2 boolean atoms; each of those "
                     "as an operand of every operator (every %s); listed identifier shapes; every backtick name of "
-                    "length <= 3 over {a,1,_,<,>,:}; then seeded random typed expressions of depth <= 5.  A failing "
+                    "length <= 3 over {a,1,_,<,>,:}; then seeded random typed expressions of depth <= 5; last, round trips after look-alike texts "
+                    "(blanks removed / doubled, other case) have been parsed in the same process.  A failing "
                     "input is reduced to its smallest failing subexpressions.  Non-trivial = has an operator; "
                     "distinct = distinct trees" % (arith_atoms, "4th in the quick tier" if tier == "quick" else "one"),
             "bound": "depth <= 3 exhaustively (arithmetic), depth <= 5 random; 6 valuations per expression "
